@@ -344,7 +344,7 @@ def after3 : RunState (Unit × ErrSt) :=
                  lastErrorSource := some "main.ds".toList, exitOnError := true }) }
 
 /-- three iterations: error, query, switch -/
-theorem run3 : runN (withOnError base) prog [] (fun _ _ => false) 3 start = some after3 := by
+private theorem run3 : runN (withOnError base) prog [] (fun _ _ => false) 3 start = some after3 := by
   rfl
 
 example : eventsN base prog [] (fun _ _ => false) 3 start =
